@@ -1355,6 +1355,13 @@ def evaluate(c, cfg, pairs, metas):
         c.violation(key, msg, replay_dict(cfg, obs))
     if info.get("degenerate") or "error" in obs:
         return
+    # colours are read back through a finite table (24 hue x 25 colour levels): a plot with more levels is
+    # checked by the oracle above only
+    pa = prop_axes(E)
+    if "hue" in pa and "color" in pa and (len(E.axes[pa["hue"]]["labels"]) > 24
+                                          or len(E.axes[pa["color"]]["labels"]) > 25):
+        c.count("model_comparison", "skipped (more hue / colour levels than the read-back table holds)")
+        return
     try:
         mp = model_pair(cfg, obs, E, info.get("edges"))
     except Exception as e:
